@@ -25,6 +25,8 @@ pub enum Family {
     C16,
     C17,
     C19,
+    /// C19's send-window clause: outbound window = min(configured or handshake override, peer's Receive Maximum)
+    C19W,
     C20,
 }
 
@@ -48,6 +50,7 @@ impl Family {
             "C16" => Family::C16,
             "C17" => Family::C17,
             "C19" => Family::C19,
+            "C19W" => Family::C19W,
             "C20" => Family::C20,
             _ => return None,
         })
@@ -71,6 +74,7 @@ impl Family {
             Family::C16 => "C16",
             Family::C17 => "C17",
             Family::C19 => "C19",
+            Family::C19W => "C19W",
             Family::C20 => "C20",
         }
     }
@@ -94,6 +98,7 @@ pub const ALL_FAMILIES: &[Family] = &[
     Family::C16,
     Family::C17,
     Family::C19,
+    Family::C19W,
     Family::C20,
 ];
 
@@ -116,6 +121,7 @@ pub fn generate(f: Family, ch: &mut Choices) -> Plan {
         Family::C16 => gen_c16(ch),
         Family::C17 => gen_c17(ch),
         Family::C19 => gen_c19(ch),
+        Family::C19W => gen_c19w(ch),
         Family::C20 => gen_c20(ch),
     }
 }
@@ -1064,6 +1070,36 @@ fn gen_c17(ch: &mut Choices) -> Plan {
     plan
 }
 
+
+
+/// C19, send window: every combination of configured value, handshake override and the peer's
+/// Receive Maximum (MQTT 5), server roles; the workload is C05's.
+fn gen_c19w(ch: &mut Choices) -> Plan {
+    let mut plan = gen_outbound(OutKind::C05, ch);
+    plan.family = "C19W";
+    let role = if ch.chance(2, 3) { Role::S5 } else { Role::S3 };
+    plan.role = role;
+    plan.peer.connect = Connect::new(role.ver(), "c0", 60_000);
+    plan.peer.connack_props.clear();
+    plan.cfg.max_send = 1 + ch.choose(4) as u16;
+    plan.cfg.hs_max_send = if ch.chance(1, 2) { Some(1 + ch.choose(5) as u16) } else { None };
+    if role == Role::S5 && ch.chance(3, 4) {
+        plan.peer.connect.props.push((33, PropVal::U16(1 + ch.choose(5) as u16)));
+    }
+    // client-only operations make no sense for a server
+    for ops in plan.senders.iter_mut() {
+        ops.retain(|o| !matches!(o, AppOp::Subscribe { .. } | AppOp::Unsubscribe { .. }));
+        if ops.is_empty() {
+            ops.push(AppOp::PubQ1 { len: 2, pid: None });
+        }
+    }
+    // enough senders to fill any window
+    while plan.senders.len() < 6 {
+        plan.senders.push(vec![AppOp::PubQ1 { len: 1, pid: None }]);
+    }
+    plan.p_cancel = 0;
+    plan
+}
 
 // ------------------------------------------------------------------------------------------
 // C20: idle and too-slow peers are timed out, live peers are not
